@@ -868,4 +868,34 @@ theorem ixParseLoop_whole (buf : Bytes) (acc : List Bytes) :
     cases xs.length <;> simp [ixParseLoop]
 
 
+/-- a length-prefixed packet as the `framed` parser expects it on the wire -/
+def frame (p : Bytes) : Bytes := p.length :: p
+
+theorem ixParseLoop_frames (fs : List Bytes) : ∀ (fuel : Nat) (acc : List Bytes), fs.length ≤ fuel →
+    ixParseLoop .framed fuel (flat (fs.map frame)) acc = ([], acc ++ fs.map frame) := by
+  induction fs with
+  | nil =>
+    intro fuel acc _
+    cases fuel <;> simp [ixParseLoop, flat]
+  | cons p rest ih =>
+    intro fuel acc hf
+    cases fuel with
+    | zero => simp at hf
+    | succ n =>
+      have hbuf : flat ((p :: rest).map frame) = p.length :: (p ++ flat (rest.map frame)) := by
+        simp [flat, frame]
+      rw [hbuf]
+      unfold ixParseLoop
+      simp only [List.isEmpty_cons, Bool.false_eq_true, if_false, parse]
+      have hle : p.length ≤ (p ++ flat (rest.map frame)).length := by simp
+      rw [if_pos hle]
+      simp only [Nat.add_one_ne_zero, if_false]
+      have hd : List.drop (p.length + 1) (p.length :: (p ++ flat (rest.map frame))) = flat (rest.map frame) := by
+        simp
+      have ht : List.take (p.length + 1) (p.length :: (p ++ flat (rest.map frame))) = frame p := by
+        simp [frame]
+      rw [hd, ht, ih n (acc ++ [frame p]) (by simpa using hf)]
+      simp
+
+
 end Ioflo.StreamStack
